@@ -36,7 +36,10 @@ QuerySeq == <<
   Q("$", <<Descend(SFilter(EAnd(ECmp("==", At1(a_), RootK), ENot(ECmp("==", RootK, CtxV)))))>>),
   Q("$", <<Child(SName(c_)), Child(SFilter(ETest(Q("@", <<Child(SFilter(ECmp("==", At1(a_), RootK)))>>))))>>),
   Q("$", <<Child(SName(c_)), Child(SFilter(ECmp("==", OKey, RootK)))>>),
-  Q("$", <<Child(SName(c_)), Child(SFilter(EAnd(ETest(Q("$", <<Child(SName(r_)), Child(SIndex(1))>>)), ECmp("!=", At1(a_), RootK))))>>) >>
+  Q("$", <<Child(SName(c_)), Child(SFilter(EAnd(ETest(Q("$", <<Child(SName(r_)), Child(SIndex(1))>>)), ECmp("!=", At1(a_), RootK))))>>),
+  \* a per-candidate sub-query whose nested filter is itself candidate-independent: its result still belongs to the candidate
+  Q("$", <<Child(SName(c_)), Child(SFilter(ETest(Q("@", <<Child(SFilter(ECmp("==", RootK, CtxV)))>>))))>>),
+  Q("$", <<Child(SName(c_)), Child(SFilter(ECmp("==", OFn("count", <<OQ(Q("@", <<Child(SFilter(ETest(Q("$", <<Child(SName(r_)), Child(SIndex(1))>>))))>>))>>), RootK)))>>) >>
 TheQuery == QuerySeq[QueryIx]
 
 Cands(k) == Arr(<<Obj(<<a_, b_>>, <<IntV(1), IntV(2)>>), Obj(<<a_>>, <<IntV(2)>>), Obj(<<a_, b_>>, <<IntV(k), IntV(1)>>),
@@ -114,7 +117,9 @@ Recompile ==
 Next == \/ \E it \in 1..NIter : (\E d \in 1..Len(DocSeq), c \in 1..Len(CtxSeq) : Open(it, d, c)) \/ Advance(it) \/ Close(it)
         \/ \E d \in 1..Len(DocSeq), c \in 1..Len(CtxSeq) : FindAll(d, c)
         \/ Recompile
-NextSim == \E k \in {RandomElement(1..10)}, it \in {RandomElement(1..NIter)}, d \in {RandomElement(1..Len(DocSeq))}, c \in {RandomElement(1..Len(CtxSeq))} :
+\* (the sets drawn from mention the state - Z is zero - because TLC evaluates an expression without variables once, not once per step)
+Z == Len(hist) - Len(hist)
+NextSim == \E k \in {RandomElement(1..(10 + Z))}, it \in {RandomElement(1..(NIter + Z))}, d \in {RandomElement(1..(Len(DocSeq) + Z))}, c \in {RandomElement(1..(Len(CtxSeq) + Z))} :
              IF iters[it].st = "idle" /\ k <= 6 THEN Open(it, d, c)
              ELSE IF iters[it].st = "open" /\ k <= 7 THEN Advance(it)
              ELSE IF k = 8 /\ iters[it].st # "idle" THEN Close(it)
